@@ -78,6 +78,7 @@ func c01Gen(tier string, seed int64) []ev.Case {
 	}
 	cs = append(cs, ev.MkCase("batch", c01Batch{Kind: "none", Seed: seed, Count: 60}))
 	cs = append(cs, ev.MkCase("batch", c01Batch{Kind: "long", Seed: seed, Count: 9}))
+	cs = append(cs, ev.MkCase("batch", c01Batch{Kind: "multi", Seed: seed, Count: 54}))
 	nUDP := 48
 	if tier == "thorough" {
 		nUDP = 6000
@@ -150,11 +151,19 @@ func c01Exec(run *ev.Run, c ev.Case) {
 		var p c01P
 		c.Decode(&p)
 		c01One(run, p)
+	case "multi":
+		var m c01M
+		c.Decode(&m)
+		c01Multi(run, m)
 	case "batch":
 		var b c01Batch
 		c.Decode(&b)
 		r := rng(b.Seed, "c01"+b.Kind)
 		switch b.Kind {
+		case "multi":
+			for i := 0; i < b.Count; i++ {
+				c01Multi(run, c01M{Kind: []string{"rotate", "hsdamage"}[i%2], Seed: b.Seed*6151 + int64(i), Suite: (i / 2) % 9, Which: (i / 18) % 3, Mode: i % 5})
+			}
 		case "grid", "grid7":
 			for i := b.From; i < b.From+b.Count && i < 9*17*21; i++ {
 				if b.Kind == "grid7" && i%7 != int(b.Seed%7+7)%7 {
@@ -438,4 +447,153 @@ func problems(b *refbmc.BMC) []string {
 		}
 	}
 	return o
+}
+
+// c01M is a history of handshakes on one connection.
+type c01M struct {
+	Kind  string // "rotate": credentials changed in place between handshakes; "hsdamage": one handshake reply damaged in transit
+	Seed  int64
+	Suite int
+	Which int // hsdamage: 0 Open Session Response, 1 RAKP 2, 2 RAKP 4
+	Mode  int
+}
+
+func c01Multi(run *ev.Run, m c01M) {
+	run.Eval(1)
+	cs := ev.MkCase("multi", m)
+	r := rng(m.Seed, "c01multi")
+	su := stdSuites()[m.Suite%9]
+	cfg := defaultCfg(r)
+	cfg.Suites = []refbmc.Suite{su}
+	pw := randPass(r, 1+r.Intn(20))
+	kg := rbytes(r, 20)
+	cfg.Password = append([]byte(nil), pw...)
+	useKG := r.Intn(2) == 0
+	if useKG {
+		cfg.KG = append([]byte(nil), kg...)
+	}
+	e := NewEnv(cfg, memtr.Window)
+	var body []byte
+	e.BMC.Handler = func(evn *refbmc.Event) (byte, []byte, bool) {
+		if evn.Kind == "session-ipmi" && evn.Cmd == 0x4e {
+			body = rbytes(r, 1+r.Intn(30))
+			return 0, body, true
+		}
+		if evn.Kind == "sessionless-ipmi" && evn.NetFn == 6 && evn.Cmd == 0x37 {
+			return 0, cfg.GUID[:], true
+		}
+		return 0, nil, false
+	}
+	opts := &bmc.V2SessionOpts{
+		SessionOpts:  bmc.SessionOpts{Username: cfg.Username, Password: pw, MaxPrivilegeLevel: ipmi.PrivilegeLevelAdministrator},
+		CipherSuites: []ipmi.CipherSuite{libSuite(su)},
+	}
+	if useKG {
+		opts.KG = kg
+	}
+	ctx, cancel := bg(10 * time.Second)
+	defer cancel()
+	one := func(what string) bool {
+		var sess *bmc.V2Session
+		var err error
+		pv, stack := safe(func() { sess, err = e.ST.NewV2Session(ctx, opts) })
+		if pv != nil {
+			run.Violation("C01:panic-in-handshake:"+panicSite(stack), fmt.Sprintf("%s: NewV2Session panicked: %v\n%s", what, pv, trimStack(stack)), cs, nil)
+			return false
+		}
+		if err != nil {
+			run.Violation("C01:handshake-fails:"+m.Kind, fmt.Sprintf("%s (suite %v): NewV2Session failed against a conforming BMC that holds the same credentials: %v; BMC: %v", what, su, err, problems(e.BMC)), cs, nil)
+			return false
+		}
+		se := e.BMC.Sess
+		if se == nil || !se.Active || !bytes.Equal(sess.SIK, se.SIK) || !bytes.Equal(sess.K(1), se.K1) || !bytes.Equal(sess.K(2), se.K2) {
+			run.Violation("C01:key-disagreement:"+m.Kind, fmt.Sprintf("%s (suite %v): keys differ from the BMC's", what, su), cs, nil)
+			return false
+		}
+		cmd := &RawCmd{Op: ipmi.Operation{Function: ipmi.NetworkFunctionAppReq, Command: 0x4e}, Req: rbytes(r, r.Intn(20))}
+		code, err := sess.SendCommand(ctx, cmd)
+		if err != nil || code != 0 || !bytes.Equal(cmd.Rsp.Data, body) {
+			run.Violation("C01:command-rejected:"+m.Kind, fmt.Sprintf("%s (suite %v): command on the session: code=%v err=%v; BMC: %v", what, su, code, err, problems(e.BMC)), cs, nil)
+			return false
+		}
+		if r.Intn(2) == 0 {
+			sess.Close(ctx)
+		}
+		return true
+	}
+	switch m.Kind {
+	case "rotate":
+		if !one("first handshake on the connection") {
+			return
+		}
+		for round := 0; round < 3; round++ {
+			// the operator rotates the credentials; the caller's configuration keeps its
+			// buffers and overwrites them in place
+			switch (m.Mode + round) % 3 {
+			case 0:
+				copy(pw, randPass(r, len(pw)))
+				pw[0] ^= 0x55
+			case 1:
+				if useKG {
+					copy(kg, rbytes(r, 20))
+				} else {
+					copy(pw, randPass(r, len(pw)))
+					pw[len(pw)-1] ^= 0x33
+				}
+			default:
+				copy(pw, randPass(r, len(pw)))
+				pw[len(pw)/2] ^= 0x0f
+				copy(kg, rbytes(r, 20))
+			}
+			e.BMC.Cfg.Password = append([]byte(nil), pw...)
+			if useKG {
+				e.BMC.Cfg.KG = append([]byte(nil), kg...)
+			}
+			if !one(fmt.Sprintf("handshake %d on the connection, after the password/KG were overwritten in place in the caller's buffers and changed on the BMC", round+2)) {
+				return
+			}
+			run.Event("credential-rotations", 1)
+		}
+		run.Nontrivial(fmt.Sprintf("rotate|%v|%v|%d", su, useKG, m.Mode%3))
+	case "hsdamage":
+		// a session-less exchange first, whose reply the network later duplicates
+		var guidReply []byte
+		e.Filter = func(n int, req, reply []byte) ([]byte, error) {
+			guidReply = append([]byte(nil), reply...)
+			return reply, nil
+		}
+		e.ST.GetSystemGUID(ctx)
+		wantType := []byte{0x10, 0x12, 0x14}[m.Which%3]
+		damaged := 0
+		e.Filter = func(n int, req, reply []byte) ([]byte, error) {
+			if damaged > 0 || len(req) < 6 || req[5] != wantType || len(reply) < 16 {
+				return reply, nil
+			}
+			damaged++
+			switch m.Mode % 4 {
+			case 0:
+				return append([]byte(nil), reply[:16]...), nil // RMCP and session header only
+			case 1:
+				return append([]byte(nil), reply[:16+r.Intn(len(reply)-16)]...), nil
+			case 2:
+				if guidReply != nil {
+					return guidReply, nil // a duplicate of an earlier answer
+				}
+				return append([]byte(nil), reply[:16]...), nil
+			default:
+				return append([]byte(nil), reply[:14]...), nil
+			}
+		}
+		ok := one(fmt.Sprintf("handshake whose %s was damaged once in transit (mode %d) and then delivered intact on the retry", []string{"Open Session Response", "RAKP 2", "RAKP 4"}[m.Which%3], m.Mode%4))
+		e.Filter = nil
+		if !ok {
+			return
+		}
+		if damaged == 0 {
+			run.Inconclusive("no handshake reply was damaged")
+			return
+		}
+		run.Event("handshake-replies-damaged", 1)
+		run.Nontrivial(fmt.Sprintf("hsdamage|%v|%d|%d", su, m.Which%3, m.Mode%4))
+	}
 }
